@@ -10,6 +10,7 @@ mod c13;
 mod c16;
 mod c09;
 mod c19;
+mod c05;
 mod c07;
 mod c08;
 mod c20;
@@ -64,6 +65,7 @@ fn main() {
         "c16" => c16::main(&args),
         "c09" => c09::main(&args),
         "c19" => c19::main(&args),
+        "c05" => c05::main(&args),
         "c07" => c07::main(&args),
         "c08" => c08::main(&args),
         "c20" => c20::main(&args),
